@@ -116,6 +116,12 @@ def check_run(r, info, ff, opts, tag, n_ends=None, cyclic=False,
                 k = f"partially-unassigned:{ff}:{state}"
                 events[k] = events.get(k, 0) + 1
                 continue
+            if state[-3:] not in corpus.allowed_states(inf["input"]):
+                # e.g. an input HSP (doubly protonated by name) that ends as
+                # a neutral tautomer: charge consistent with the wrong state
+                viol.append((f"C02/{tag}/{ff}/{inf['input']}/"
+                             f"state-differs-from-input-name:{state[-3:]}",
+                             {"names": sorted(names)}))
             fq = corpus.formal_charge(state)
             expected_total += fq
             cells.add(f"{ff}:{state}")
